@@ -369,6 +369,11 @@ class Ctx:
         }
         with open(os.path.join(EVIDENCE, "%s.json" % self.prop), "w") as f:
             json.dump(ev, f, indent=1, default=str)
+        if REPO != "/repo" and os.path.isdir(os.path.join(VERIF, ".git")):
+            # a run against a scratch worktree regenerated the translated / extracted Lean files from *that* tree: put the committed
+            # ones (generated from /repo) back, so that nothing derived from a modified tree is ever committed
+            with LakeLock():
+                sh(["git", "-C", VERIF, "checkout", "--", "lean/AcqVerif/Generated"], timeout=60)
         if rc == 0:
             print("ok property=%s tier=%s seed=%d obligations=%d discharged=%d evaluations=%d wall=%.1fs" % (
                 self.prop, self.tier, self.seed, self.cov["obligations"], self.cov["discharged"],
